@@ -258,4 +258,4 @@ def run(ctx):
     from ..common import run_systematic
 
     run_systematic(ctx, systematic_cases(), guarded(ctx, check_case), keep_one_in=2 if ctx.tier == "quick" else 1, label="template-perturbations")
-    run_cases(ctx, case_strategy(), guarded(ctx, check_case), ctx.budget(2000, 60000))
+    run_cases(ctx, case_strategy(), guarded(ctx, check_case), ctx.budget(2000, 16000))
